@@ -17,7 +17,7 @@ EXPLANATION = (
     "Tsm::dealloc has no other callers except spawn's own failure paths, from which no handle escapes. C06.2 never while the kernel can still write: on the thread side SET_TID_ADDRESS(0) precedes the free, on the handle side the exit wait (C05.5) does. "
     "C06.3 the TLS block is freed exactly once by its own thread: dealloc(get_tls_ptr()) on every path of the thread epilogue and of the panic handler's thread branch, and nowhere else; the main thread's branch exits the process instead. "
     "C06.4 the stack is unmapped last and nothing touches it afterwards: after the start function returns the trampoline takes munmap's arguments from callee-saved registers filled before the call, issues MUNMAP then EXIT with no stack-touching instruction in between; "
-    "the panic path's asm! is nostack+noreturn, its inputs are the thread's recorded stack address/size and MUNMAP, and its template ends in EXIT. C06.5 the closure box is consumed by the start function. "
+    "the panic path's asm! is nostack+noreturn, its inputs are the thread's recorded stack address/size and MUNMAP, and its template ends in EXIT; every unmap covers exactly the mapping: the length mapped in spawn is the length recorded for the panic handler, the length handed to the trampoline and the length unmapped on spawn's failure path, and the trampoline's address is the mmap result itself. C06.3 also: the thread-local block is freed only after the user's function returned (the panic handler still needs it). C06.5 the closure box is consumed by the start function. "
     "C06.6 a failed spawn releases everything it had acquired (join block, boxed closure, stack mapping, TLS block) on every error return; "
     "NOT decided: VmSize/heap baselines after many threads (quantitative), kernel timing of the clear-tid write.")
 ASSUMPTIONS = ["CLONE_CHILD_CLEARTID semantics", "System V x86_64 callee-saved registers r12-r15, rbx, rbp"]
